@@ -221,6 +221,72 @@ check_options(tsk_table_collection_t *orig, tsk_treeseq_t *ts_in, tsk_flags_t op
     tsk_table_collection_free(&o);
 }
 
+#ifdef REDUCE_PASS
+/* reduce_to_site_topology: at every site the ancestry is the simplified ancestry of the input there; every output edge
+ * covers at least one site; with no sites there are no edges */
+static void
+check_reduce(tsk_table_collection_t *orig)
+{
+    tsk_table_collection_t o;
+    tsk_treeseq_t ts_out;
+    tsk_id_t node_map[NN], P[NN];
+    int ret, u, j, k, present[NN], anywhere[NN];
+    tsk_size_t e;
+
+    ret = tsk_table_collection_copy(orig, &o, 0);
+    sym_assume(ret == 0);
+    ret = tsk_table_collection_simplify(&o, samples, (tsk_size_t) nsamples, TSK_SIMPLIFY_REDUCE_TO_SITE_TOPOLOGY, node_map);
+    sym_assert(ret == 0, "simplify(reduce_to_site_topology) succeeds");
+    if (ret != 0) {
+        tsk_table_collection_free(&o);
+        return;
+    }
+    ret = tsk_treeseq_init(&ts_out, &o, TSK_TS_INIT_BUILD_INDEXES);
+    sym_assert(ret == 0, "the reduced tables are a valid tree sequence");
+    sym_assert(o.sites.num_rows == NS, "without filter_sites every site is kept");
+    for (u = 0; u < NN; u++) {
+        anywhere[u] = 0;
+    }
+    for (k = 0; k < NS; k++) {
+        double x = site_pos[k];
+        presence(x, 0, 0, present, P);
+        for (u = 0; u < NN; u++) {
+            tsk_id_t w, mu = node_map[u];
+            anywhere[u] |= present[u];
+            if (mu == TSK_NULL) {
+                sym_assert(!present[u], "a node that is present at some site is retained");
+                continue;
+            }
+            if (!present[u]) {
+                sym_assert(out_parent_at(&o, mu, x) == TSK_NULL, "a node that is not part of the sample genealogy at the site has no parent there");
+                continue;
+            }
+            w = P[u];
+            for (j = 0; j <= NN && w != TSK_NULL && !present[w]; j++) {
+                w = P[w];
+            }
+            sym_assert(out_parent_at(&o, mu, x) == (w == TSK_NULL ? TSK_NULL : node_map[w]),
+                "at every site the ancestry is the simplified ancestry of the input at that position");
+        }
+    }
+    for (u = 0; u < NN; u++) {
+        sym_assert((node_map[u] != TSK_NULL) == (anywhere[u] != 0), "node_map is NULL exactly for nodes present at no site");
+    }
+    for (e = 0; e < o.edges.num_rows; e++) {
+        int covers = 0;
+        for (k = 0; k < NS; k++) {
+            covers |= o.edges.left[e] <= site_pos[k] && site_pos[k] < o.edges.right[e];
+        }
+        sym_assert(covers, "every output edge covers at least one site (no sites: no edges)");
+    }
+    if (o.edges.num_rows > 0) {
+        sym_reach("reduced-edges");
+    }
+    tsk_treeseq_free(&ts_out);
+    tsk_table_collection_free(&o);
+}
+#endif
+
 int
 main_c04(void)
 {
@@ -246,6 +312,9 @@ main_c04(void)
         chosen[samples[j]] = 1;
     }
     check_options(&t, &ts, TSK_SIMPLIFY_FILTER_SITES | TSK_SIMPLIFY_FILTER_POPULATIONS | TSK_SIMPLIFY_FILTER_INDIVIDUALS, 1);
+#ifdef REDUCE_PASS
+    check_reduce(&t);
+#endif
 #ifdef ROOTS_PASS
     check_options(&t, &ts, TSK_SIMPLIFY_FILTER_SITES | TSK_SIMPLIFY_KEEP_INPUT_ROOTS, 1);
 #endif
